@@ -115,9 +115,11 @@ def corr(ctx):
         if c.family == "reed_muller":
             # its calculate_syndrome is the error pattern of the nearest codeword (2^k enumeration), not x H^T:
             # the property's clause is about zero-ness, compared as such
-            if k > 14:
-                ctx.count("syn_skipped_rm_k>14")
+            if k > 16:
+                ctx.count("syn_skipped_rm_k>16")
                 continue
+            if k > 14:
+                W = torch.stack(words[:5] + pert[:3] + pert[-3:])    # 2^k x n work per word: a handful of words with random (large-index) messages
             S = enc.calculate_syndrome(W)
             for w, s in zip(W.tolist(), S.tolist()):
                 ops.append(Op("synz %s %s" % (name, bits(w)), "1" if any(int(round(v)) % 2 for v in s) else "0", nontrivial=any(w), info=info2))
@@ -166,8 +168,10 @@ def instance_violations(c, ctx, limit=3):
         out.append(("%s: encode(%s) = %s but m*G = %s for the published generator matrix" % (c.name, bits(M[i]), bits(C[i]), bits(want[i])), ["enc %s %s" % (c.name, bits(M[i]))]))
     if feccat.rank(G) < k:
         out.append(("%s: published generator matrix has rank %d < k = %d (encoding not injective)" % (c.name, feccat.rank(G), k), []))
-    if c.family == "reed_muller" and k > 14:
+    if c.family == "reed_muller" and k > 16:
         return out[:limit]
+    if c.family == "reed_muller" and k > 14:
+        M, C = M[:6], C[:6]
     # codewords with non-zero syndrome (as computed by the real calculate_syndrome)
     S = enc.calculate_syndrome(torch.tensor(C, dtype=torch.float32)).numpy().astype(int) % 2
     bad = np.nonzero(S.any(axis=1))[0]
